@@ -177,7 +177,10 @@ func (r *RandomChoiceSelection) Select(pool UpstreamPool, _ *layer4.Connection) 
 		k = len(pool)
 	}
 	choices := make([]*Upstream, k)
-	for i, upstream := range pool {
+	// reservoir sampling over the available upstreams only: i counts the available
+	// upstreams seen so far, so the first one always lands in choices[0]
+	i := 0
+	for _, upstream := range pool {
 		if !upstream.available() {
 			continue
 		}
@@ -185,6 +188,7 @@ func (r *RandomChoiceSelection) Select(pool UpstreamPool, _ *layer4.Connection) 
 		if j < k {
 			choices[j] = upstream
 		}
+		i++
 	}
 	return leastConns(choices)
 }
@@ -421,14 +425,21 @@ func leastConns(upstreams []*Upstream) *Upstream {
 		return nil
 	}
 	var best []*Upstream
-	var bestReqs int
+	bestReqs := -1
 	for _, upstream := range upstreams {
+		if upstream == nil {
+			// unused slot of the sample
+			continue
+		}
 		reqs := upstream.totalConns()
 		if reqs == 0 {
 			return upstream
 		}
-		if reqs <= bestReqs {
+		if bestReqs == -1 || reqs < bestReqs {
 			bestReqs = reqs
+			best = best[:0]
+		}
+		if reqs <= bestReqs {
 			best = append(best, upstream)
 		}
 	}
